@@ -1,6 +1,10 @@
 import MJ.Proofs.Kernels
 import MJ.Proofs.Stk
 import MJ.Proofs.Nesting
+import MJ.Proofs.Scopes
+import MJ.Proofs.Sites
+import MJ.Proofs.KStack
+import MJ.Model.PanicSites
 import MJ.Model.CallGraph
 import MJ.Props.C09
 /-!
@@ -963,6 +967,174 @@ example : parse small (.chain .leaf [.group [.chain .leaf [.leaf, .leaf], .chain
 example : parse small (.group [.group [.group [.group [.group [.group [.group []]]]]]]) = .error .recursion := by decide
 
 end NestingExamples
+
+/-! ## Scope stack of the load-time assignment tracker (`compiler/meta.rs`)
+
+`find_macro_closure` runs while a template is loaded (codegen calls it for every `{% macro %}` and
+every `{% call %}` body), `find_undeclared` behind `Template::undeclared_variables`.  Both walk the AST
+with a stack of scopes; `assign` does `last_mut().unwrap()`.  The function bodies are regenerated from
+the source as scope-stack programs (`MJ.Gen.metaScopeFns`, one per function, `track_walk` with one arm
+per statement kind; `MJ.Gen.metaWalkArms` lists the arms on their own).  An arm that pops a scope it
+did not push — or pushes one it does not pop — on any path breaks `meta_scope_table_balanced` /
+`meta_walk_arms_balanced` (a `decide` on the regenerated table). -/
+
+/-- every function of `compiler/meta.rs` pops only what it pushed and ends, on every path, at the
+height it was entered with; the entry points create a stack of height ≥ 1 -/
+theorem meta_scope_table_balanced :
+    Scopes.tableOk Gen.metaScopeFns = true ∧ Scopes.entriesOk Gen.metaScopeFns Gen.metaScopeEntries = true := by
+  decide
+
+/-- each arm of `track_walk` on its own is balanced (number of `state.push()` = number of `state.pop()`
+on every path, never below the entry height) -/
+theorem meta_walk_arms_balanced : Gen.metaWalkArms.all (fun a => Scopes.balanced a.2) = true := by decide
+
+/-- every arm leaves the stack height unchanged, whatever the statement's children are (any call tree,
+any iteration counts, any branch), and does not panic — for every entry height ≥ 1 -/
+theorem meta_walk_arm_height_unchanged (name : String) (arm : Gen.ScopeProg) (ha : (name, arm) ∈ Gen.metaWalkArms)
+    (h : Nat) (hh : 1 ≤ h) (r : Option Nat) (hx : Scopes.Exec Gen.metaScopeFns arm h r) : r = some h := by
+  have hb : Scopes.balanced arm = true := (List.all_eq_true.mp meta_walk_arms_balanced) (name, arm) ha
+  exact Scopes.balanced_exec meta_scope_table_balanced.1 hb hh hx
+
+/-- `find_macro_closure` (load time) and `find_undeclared`: `assign` is never reached with an empty
+scope stack, for every AST (= every finite execution of the regenerated programs), and the stack ends
+with the one scope the entry point created -/
+def MetaScopesSafe : Prop :=
+  ∀ e ∈ Gen.metaScopeEntries, ∀ body, Gen.metaScopeFns[e.1]? = some body →
+    ∀ r, Scopes.Exec Gen.metaScopeFns body e.2 r → r = some e.2
+
+theorem meta_scopes_no_panic : MetaScopesSafe := by
+  intro e he body hb r hx
+  have hok := meta_scope_table_balanced
+  have hbal : Scopes.balanced body = true :=
+    (List.all_eq_true.mp hok.1) body (List.mem_of_getElem? hb)
+  have hpos : 1 ≤ e.2 := by
+    have h2 := hok.2
+    simp only [Scopes.entriesOk, Bool.and_eq_true] at h2
+    have := (List.all_eq_true.mp h2.2) e he
+    simp at this
+    omega
+  exact Scopes.balanced_exec hok.1 hbal hpos hx
+
+namespace ScopesExamples
+open Scopes Gen.ScopeProg
+
+-- the hypotheses are satisfiable: both entry points exist, and the regenerated programs run
+example : Gen.metaScopeEntries.length = 2 ∧ Gen.metaWalkArms.length ≥ 15 := by decide
+example : run Gen.metaScopeFns true 2 12 (.call 1 .done) 1 = some 1 := by decide
+example : run Gen.metaScopeFns false 1 12 (.call 0 .done) 1 = some 1 := by decide
+
+/-- the shape of an arm that lost a `push` in front of its else body (walks the else body, pops) -/
+def forElseUnpaired : Gen.ScopeProg := .push (.need (.pop (.branch (.pop .done) .done .done)))
+/-- a macro body: that statement, then a variable reference at the top level of the body -/
+def macroBody : Gen.ScopeProg := .call 0 (.need .done)
+
+example : balanced forElseUnpaired = false := by decide
+example : tableOk [forElseUnpaired, macroBody] = false := by decide
+
+/-- … and such an arm does panic: the next `assign` finds the stack empty -/
+theorem unpaired_pop_panics : Exec [forElseUnpaired, macroBody] macroBody 1 none := by
+  refine .callOk (body := forElseUnpaired) (h' := 0) rfl ?_ .needPanic
+  exact .push (.needOk (by decide) (.pop (.branchL (h' := 0) (.pop .done) .done)))
+
+end ScopesExamples
+
+/-! ## `pending_block` of the code generator (`compiler/codegen.rs`)
+
+The methods of `impl CodeGenerator` that touch `pending_block` (directly or through a callee) are regenerated
+as programs over stacks of KINDS (`Branch`, `Loop`, `ScBool`, `Scope`) with a signature each
+(`MJ.Gen.codegenKFns`; the signatures are inferred by the extractor and CHECKED here).  `end_scope`,
+`end_condition`, `end_for_loop`, `sc_bool` hit `unreachable!()` when the top entry is missing or of another
+kind, `finish` asserts that nothing is left. -/
+
+/-- every method's body agrees with its signature (`start_if : [] ⟶ [Branch]`, `end_if : [Branch] ⟶ []`, every
+`compile_*` method `[] ⟶ []`, …) -/
+theorem codegen_pending_block_table_ok : KStack.tableOk KStack.codegenFns = true := by decide +kernel
+
+/-- hence: whatever the AST (any call tree, any branch, any number of loop rounds), a method called on a stack
+that starts with the kinds it expects never reaches a failing `pop` / `last_mut` / `assert!(is_empty())` and
+leaves its `post` kinds instead; the entry points (the driver `compile_stmt* ; finish`, the sub-generator of
+`{% block %}`) run from the empty stack to the empty stack -/
+theorem codegen_pending_block_safe (f : Nat) (fn : KStack.Fn) (hf : KStack.codegenFns[f]? = some fn)
+    (rest : List Nat) (hrest : fn.entry = true → rest = []) (r : Option (List Nat))
+    (hx : KStack.Exec KStack.codegenFns fn.body (fn.pre ++ rest) r) : r = some (fn.post ++ rest) :=
+  KStack.fn_exec codegen_pending_block_table_ok hf rest hrest hx
+
+namespace KStackExamples
+open KStack Gen.KProg
+
+example : Gen.codegenKinds = ["Branch", "Loop", "ScBool", "Scope"] := by decide
+example : (Gen.codegenKFns.map (·.1)).contains "compile_stmt" ∧ (Gen.codegenKFns.map (·.1)).contains "<driver>" := by decide
+/-- the signatures the theorem established for the primitives -/
+example : (codegenFns[fnIndex "start_else"]?).map (fun f => (f.pre, f.post)) = some ([0], [0]) ∧
+    (codegenFns[fnIndex "end_for_loop"]?).map (fun f => (f.pre, f.post)) = some ([1], []) ∧
+    (codegenFns[fnIndex "compile_stmt"]?).map (fun f => (f.pre, f.post)) = some ([], []) := by decide
+
+/-- a generator whose `if` statement forgets `end_if`: [start_if; end_if] vs [start_if] -/
+def startIf : Fn := ⟨.push 0 .done, [], [0], false⟩
+def endIf : Fn := ⟨.pop 0 .done, [0], [], false⟩
+def ifStmtGood : Fn := ⟨.call 0 (.call 1 .done), [], [], false⟩
+def ifStmtBad : Fn := ⟨.call 0 .done, [], [], false⟩
+def finishFn : Fn := ⟨.empty .done, [], [], true⟩
+def driver (stmt : Nat) : Fn := ⟨.call stmt (.call 3 .done), [], [], true⟩
+
+example : tableOk [startIf, endIf, ifStmtGood, finishFn, driver 2] = true := by decide
+example : tableOk [startIf, endIf, ifStmtBad, finishFn, driver 2] = false := by decide
+/-- … and the forgotten `end_if` does fail the assertion in `finish` -/
+theorem unclosed_block_fails_finish :
+    Exec [startIf, endIf, ifStmtBad, finishFn, driver 2] (driver 2).body [] none := by
+  refine .callOk (fn := ifStmtBad) (s' := [0]) rfl ?_ ?_
+  · exact .callOk (fn := startIf) (s' := [0]) rfl (.push .done) .done
+  · exact .callPanic (fn := finishFn) rfl .emptyFail
+
+end KStackExamples
+
+/-! ## Individual crash sites: small kernels, and the classification of ALL potential crash sites -/
+
+/-- `Instructions::get_line`: `line_infos[idx]` / `line_infos[idx - 1]` after `binary_search_by_key` are in
+range for every table and every instruction index (`Err(0)` returns first) -/
+theorem getLine_no_panic (s : Loc.Instrs) (idx : Nat) : s.getLine idx ≠ .panic := Sites.getLine_no_panic s idx
+
+theorem getSpan_no_panic (s : Loc.Instrs) (idx : Nat) : s.getSpan idx ≠ .panic := Sites.getSpan_no_panic s idx
+
+example : (Loc.addAll [.withLine 1, .plain, .withLine 2]).getLine 1 = .ok (some 1) := by decide
+example : Loc.Instrs.empty.getLine 5 = .ok none := by decide
+
+/-- `SmallStr::try_new` + `as_str` (capacity regenerated from value/mod.rs): neither slice is out of range
+and the `u8` length field loses nothing, for every string length -/
+theorem smallStr_no_panic (len : Nat) :
+    Sites.smallStrRoundTrip Gen.smallStrCap len = .ok (if len ≤ Gen.smallStrCap then some len else none) :=
+  Sites.smallStrRoundTrip_ok _ _ (by decide)
+
+/-- `Value::from(char)`: the `unwrap()` of `SmallStr::try_new` on at most 4 bytes cannot fail -/
+theorem smallStr_char_fits (k : Nat) (hk : k ≤ 4) : Sites.smallStrFromChar Gen.smallStrCap k ≠ .panic :=
+  Sites.smallStrFromChar_ok _ _ hk (by decide)
+
+example : Sites.smallStrRoundTrip 22 22 = .ok (some 22) ∧ Sites.smallStrRoundTrip 22 23 = .ok none := by decide
+example : Sites.smallStrFromChar 3 4 = .panic := by decide   -- a capacity below 4 would make the unwrap fail
+example : Sites.smallStrRoundTrip 300 260 = .ok (some 4) := by decide  -- a capacity above 255 would truncate the length
+
+set_option maxRecDepth 100000 in
+/-- every potential crash site of the crate's non-test code (regenerated table) has a row in the hand-made
+classification with the same number of sites — a new `unwrap()` / index / cast / arithmetic site, or one that
+moved to another function, makes this false -/
+theorem all_panic_sites_classified : PanicSites.genKeyed = PanicSites.keyed PanicSites.rows := by
+  unfold PanicSites.genKeyed PanicSites.keyed
+  rfl
+
+/-- the guards of the class-`b` rows are the ones the source has now -/
+theorem panic_guards_as_tabled : PanicSites.bGenGuards = PanicSites.bEvidence := by decide +kernel
+
+/-- class `a` rows name their theorem, class `b` rows their guard, class `c` rows their reason -/
+theorem panic_evidence_given : PanicSites.evidenceGiven = true := by decide +kernel
+
+/-- (rows, sites) per class: a proved, b guarded (tabled), c outside the quantifier, d oracle only -/
+theorem panic_site_class_counts :
+    (PanicSites.rowsOf .a, PanicSites.sitesOf .a) = (54, 117) ∧
+    (PanicSites.rowsOf .b, PanicSites.sitesOf .b) = (27, 36) ∧
+    (PanicSites.rowsOf .c, PanicSites.sitesOf .c) = (20, 27) ∧
+    (PanicSites.rowsOf .d, PanicSites.sitesOf .d) = (170, 317) := by decide +kernel
+
+example : PanicSites.rows.length > 200 ∧ Gen.panicSites.length = PanicSites.rows.length := by decide +kernel
 
 /-- the full statement fails exactly through the `elif` recursion: while `parse_if_cond` calls itself
     outside the guard, not every cycle is guarded (witness replayed by the depth probe `d elif n`) -/
